@@ -11,7 +11,7 @@ from typing import Any, Dict, List, Optional
 
 from .tlc import VERIF, MachineryError, TLCRun, Validation
 
-EVIDENCE_DIR = os.path.join(VERIF, "evidence")
+EVIDENCE_DIR = os.environ.get("VF_EVIDENCE_DIR") or os.path.join(VERIF, "evidence")  # overridden when trying a seeded change
 REPLAY_DIR = os.path.join(VERIF, "replays")
 FINDINGS_FILE = os.path.join(VERIF, "known_findings.json")
 REPO = os.environ.get("VF_REPO", "/repo")
